@@ -70,6 +70,47 @@ def _compared_on_stripped(f, fx, word):
     return False
 
 
+def rule_float_writers(ctx, fx, config):
+    """SIBLING / APPEND-ONLY: the two float writers (String target for scalar keys, fmt::Write target for everything else) emit
+    the same pieces, and only by appending — the digits zmij produced are copied slice by slice with `.0` and the exponent sign
+    put between the slices.  An edit of the target at a computed offset (insert / insert_str / replace_range) has to know how
+    many characters precede the mantissa (a leading `-`), which is exactly what goes wrong."""
+    a = fx.fn("zmij_format::push_float_string")
+    b_ = fx.fn("zmij_format::write_float_string")
+    APPEND = {"push_str": "str", "write_str": "str", "push": "char", "write_char": "char"}
+    NEUTRAL = {"reserve"}
+    sig = {}
+    for f in (a, b_):
+        ctx.saw(f)
+        pieces, positional = set(), []
+        for bb, t in f.calls():
+            if not t["args"]:
+                continue
+            first = render(f.sym_operand(t["args"][0]))
+            if first not in ("target", "deref(target)", "*target"):
+                continue
+            nm = last_seg(fx.callee_decl(t) or fx.callee(t))
+            if nm in APPEND:
+                with f.deep():
+                    arg = render(f.sym_operand(t["args"][1]))
+                pieces.add((APPEND[nm], arg))
+            elif nm in NEUTRAL:
+                continue
+            else:
+                positional.append((bb, nm))
+        sig[f.name] = pieces
+        ctx.check(not positional, "SIBLING", "C12:SIBLING:float-writers:append-only:%s" % f.name, "%s only appends to its target" % f.name,
+                  "%s edits its target in place (%s): the offset of the mantissa's first digit depends on a leading `-`, so negative floats in exponent form come out outside the float grammar (`-.04e-6`)" % (f.name, sorted({nm for _b, nm in positional})),
+                  config, ctx.where(f, positional[0][0]) if positional else ctx.where(f))
+        need = {("str", "'.0'"), ("char", "'+'"), ("str", "'.nan'"), ("str", "'.inf'"), ("str", "'-.inf'")}
+        ctx.check(need <= pieces, "SIBLING", "C12:SIBLING:float-writers:pieces:%s" % f.name, "%s writes `.0`, the exponent `+`, and the three special spellings" % f.name,
+                  "%s no longer writes %s" % (f.name, sorted(x[1] for x in need - pieces)), config, ctx.where(f))
+    ctx.check(sig[a.name] == sig[b_.name], "SIBLING", "C12:SIBLING:float-writers:agree", "both float writers emit the same pieces (%d)" % len(sig[a.name]),
+              "the key-position float writer and the value-position float writer emit different pieces: only in %s: %s; only in %s: %s" % (a.name, sorted(sig[a.name] - sig[b_.name]), b_.name, sorted(sig[b_.name] - sig[a.name])),
+              config, ctx.where(a))
+    ctx.floor("SIBLING.float-pieces", len(sig[a.name]), 8, config)
+
+
 def run(ctx):
     for config in ctx.configs:
         fx = ctx.facts(config)
@@ -311,6 +352,7 @@ def run(ctx):
         ctx.check(all("NoPad" not in e and "NO_PAD" not in e for e in engs) and all("NO_PAD" not in render(sb.sym_operand(a)) for b, t in enc for a in t["args"]), "TABLE", "C12:BYTES:padded-engine", "the encoder is the padded standard engine", "serialize_bytes uses an unpadded base64 engine (the reader requires canonical padding)", config, ctx.where(sb))
         # -- line-oriented emitters: block scalar bodies
         rule_block_guard(ctx, fx, config, breaks, "C12")
+        rule_float_writers(ctx, fx, config)
 
 
 def rule_block_guard(ctx, fx, config, breaks, prop):
